@@ -116,6 +116,15 @@ func reg(p *PropSpec) {
 			p.Batches = append(p.Batches, b)
 		}
 	}
+	// The thorough tier of one property is meant to finish within about forty minutes on this machine: with the
+	// root-module and bubble-kernel twins the token-kernel batches would take half as long again, so their run
+	// counts are scaled down (the S3 bubbles and the generator processes keep theirs).
+	for i := range p.Batches {
+		switch p.Batches[i].Pkg {
+		case "scen/s1", "scen/s2", "scen/s4":
+			p.Batches[i].Thorough = p.Batches[i].Thorough * 6 / 10
+		}
+	}
 	props[p.ID] = p
 }
 
